@@ -138,8 +138,12 @@ class Ctx:
         gen += [g for g in getattr(self.mod, 'GEN_FILES', []) if g not in gen]
         src_dir = os.path.join(VERIF, 'coq-run', self.id)
         run_files = list(getattr(self.mod, 'RUN_FILES', []))
-        for f in run_files:
-            src = os.path.join(src_dir, f)
+        # an entry may be (source path relative to coq-run/, name in the build dir): reuse of another
+        # property's obligation file
+        pairs = [(os.path.join(src_dir, f), f) if isinstance(f, str) else (os.path.join(VERIF, 'coq-run', f[0]), f[1])
+                 for f in run_files]
+        run_files = [p[1] for p in pairs]
+        for src, f in pairs:
             txt = open(src).read()
             if FORBIDDEN.search(strip_comments(txt)):
                 self.obligations.append((f'gate:{f}', 'broken', 'forbidden construct (Admitted/Axiom/...)'))
@@ -292,7 +296,7 @@ class Ctx:
             'obligations': n_obl,
             'discharged': n_dis,
             'checker_cmd': f'coqc -Q {COQ_STATIC} Verif -Q build/{self.id} Run <generated modules, '
-                           + ', '.join(getattr(self.mod, "RUN_FILES", [])) + '> (Coq 8.16.1, full .vo)',
+                           + ', '.join(f if isinstance(f, str) else f[1] for f in getattr(self.mod, "RUN_FILES", [])) + '> (Coq 8.16.1, full .vo)',
             'trusted_base': ['Coq 8.16.1 kernel (coqc, vm_compute; no native_compute)']
                             + [f'axiom (Print Assumptions): {a}' for a in tb]
                             + list(getattr(self.mod, 'TRUSTED', [])),
